@@ -162,10 +162,15 @@ class Check(DiffCheck):
         corpus = os.path.join(VERIF, 'replay', 'corpus', 'C01.cases')
         if os.path.exists(corpus):
             cases += [l.strip() for l in open(corpus) if l.strip() and not l.startswith('#')]
-        n = 1500 if tier == 'quick' else 12000
+        n = int(os.environ.get('C01_N', '0')) or (600 if tier == 'quick' else 8000)
         for _ in range(n):
             cases.append(gen_prog(rng))
         return cases
+
+    def impl_env(self):
+        e = DiffCheck.impl_env(self)
+        e['E2_TIMEOUT_MS'] = '300000'      # real-time watchdog only; generous because the machine may be loaded
+        return e
 
     def nontrivial(self, case):
         decls, threads = e2lib.parse_case(case)
